@@ -22,6 +22,13 @@ CertBlockEnd / Manifest / ManifestCrc / VerifySigV21 / CheckDigest -> Accept wit
       CRC likewise, AES-CTR counter start 0 / all ones / carry out of the low word(s)).  Every one of them is built
       deterministically in every image class it applies to; CRC classes are reached by solving a payload word over GF(2)
       (lib/crc_craft.py, bit-serial CRC) and confirmed on the exported bytes with the table-driven CRC of the executor.
+ Strengthening round (seed C02-m8): the SIGNING BACK END is a dimension of the case space (MbiRomMC: BackEnds, be): who produces
+      the image signature and who produces the ISK certificate signature (root key) - key file, built-in file provider, the
+      same with der_format, a plug-in provider (lib/mbi_sigprov.py, minimal interface) delivering r || s, DER, DER of a signature
+      with a leading zero byte.  The GEN run emits every (kind, curve, ISK, back end pair) together with the lemma that the ROM
+      model accepts the image of the format whoever signed and rejects a DER blob stored as delivered; every one is built in
+      EVERY composition with a certificate block (v1: x RSA size), deterministically in both tiers, and decided by TLC like any
+      other image.  The plug-in records its calls, so that the harness can confirm that the named back end did sign.
 """
 import json
 import os
@@ -319,7 +326,66 @@ def make_cases(comps, tier, r, gen):
                     add(comp, r.choice(mems), special=sp, iv=iv_of(sp["cls"], r), ks=ks, len=r.choice([64, 65, 300, 1024, 4100]), **cheap())
             else:
                 raise Machinery(f"GEN named a special the harness cannot build: {sp}")
+
+    # ---- the signing back ends TLC planned: every (curve, ISK, back end of the image signature, back end of the ISK certificate
+    # signature) x every composition with a certificate block (v1: x every RSA size). Deterministic in both tiers.
+    for comp in comps:
+        if comp["kind"] == "dsc" or comp["cb"] == 0:
+            continue
+        mems = comp["members"]
+        by_tz = {}
+        for m in mems:
+            by_tz.setdefault(m["tz"], []).append(m)
+        reps = [v[0] for v in by_tz.values()]
+        long = [n for n in LENS if n >= 64]  # not the unsettled corner of the HMAC compositions: the signatures are to be checked
+        for b in gen["backends"][comp["kind"]]:
+            be = {"img": b["img"], "isk": b["isk"], "lz": [r.choice("rs"), r.choice("rs")]}
+            for mem in ([r.choice(reps) if r.random() < 0.7 else r.choice(mems)] if quick else reps):
+                if comp["cb"] == 1:
+                    for bits in K.RSA_BITS:
+                        n = r.randrange(1, 5)
+                        add(comp, mem, be=be, v1={"bits": bits, "nroots": n, "used": r.randrange(n), "depth": r.choice([1, 1, 2, 3])},
+                            **({"len": r.choice(long)} if comp.get("hmac") else {}))
+                else:
+                    curve = {32: "p256", 48: "p384"}[b["curve"]]
+                    isk = {0: None, 64: "p256_isk", 96: "p384_isk"}[b["iskLen"]]
+                    n = r.randrange(1, 5)
+                    add(comp, mem, be=be, v21={"curve": curve, "roots": [f"r{i}" for i in range(n)], "used": r.randrange(n), "isk": isk,
+                                               "ud": r.choice([0, 0, 4, 32, mem["ud_limit"]]) if isk else 0, "cons": r.getrandbits(31)},
+                        digest=(r.choice([None, "add", "explicit"]) if comp["man"] == 1 else None))
     return cases
+
+
+def set_signer(cfg, be, role, key_file, plain_key):
+    """Who signs: the plain key-file entry of the configuration, or `signProvider` of the back end the case names."""
+    sp = None
+    if be:
+        from lib import mbi_sigprov  # imports spsdk: only inside a build
+
+        sp = mbi_sigprov.spec(be[role], key_file, be["lz"][role == "isk"])
+    if sp is None:
+        cfg[plain_key] = key_file
+    else:
+        cfg["signProvider"] = sp
+    return key_file
+
+
+def be_reached(be, cb, signers, calls):
+    """Did the plug-in back ends a case names produce the signatures (measured by the plug-in itself)? None: nothing to measure."""
+    res = None
+    for role in ("img", "isk"):
+        kind = be[role]
+        if not kind.startswith("plugin"):
+            continue  # key file / built-in provider: the configuration entry is all there is to observe
+        mine = [c for c in calls if c["key"] == signers.get(role)]
+        if kind == "plugin_raw":
+            ok = any(c["wire"] == "raw" and c["len"] == c["width"] for c in mine)
+        elif kind == "plugin_der":
+            ok = any(c["wire"] == "der" and c["lz"] == "none" and (c["len"] > c["width"]) == (cb == 21) for c in mine)
+        else:  # a DER blob of a signature with a leading zero byte in r resp. s is at most 2c + 7 bytes long
+            ok = any(c["wire"] == "der" and c["lz"] == be["lz"][role == "isk"] and c["width"] < c["len"] <= c["width"] + 7 for c in mine)
+        res = ok if res is None else res and ok
+    return res
 
 
 # ------------------------------------------------------------------ building a case through SPSDK's configuration route
@@ -370,6 +436,11 @@ def build_once(case, comp, d, patch):
     from spsdk.image.mbi.mbi import get_mbi_class
 
     os.makedirs(d, exist_ok=True)
+    signers = {}
+    if case.get("be"):
+        from lib import mbi_sigprov
+
+        mbi_sigprov.take_calls()
     mem = next(m for m in comp["members"] if m["family"] == case["family"] and m["target"] == case["target"] and m["auth"] == case["auth"])
     f = lambda name: os.path.join(d, name)  # noqa: E731
     app = gen_app(case["len"], case["seed"], patch)
@@ -421,7 +492,7 @@ def build_once(case, comp, d, patch):
             cfg["certBlock"] = f("cert_block.yaml")
         else:
             cfg.update(c)
-        cfg["signPrivateKey"] = key
+        signers["img"] = set_signer(cfg, case.get("be"), "img", key, "signPrivateKey")
     elif comp["cb"] == 21:
         v = case["v21"]
         cb = {f"rootCertificate{i}File": K.p(f"{v['curve']}_{nm}_pub.pem") for i, nm in enumerate(v["roots"])}
@@ -429,15 +500,15 @@ def build_once(case, comp, d, patch):
         cb["useIsk"] = bool(v["isk"])
         root_key = K.p(f"{v['curve']}_{v['roots'][v['used']]}.pem")
         if v["isk"]:
-            cb["mainRootCertPrivateKeyFile"] = root_key
+            signers["isk"] = set_signer(cb, case.get("be"), "isk", root_key, "mainRootCertPrivateKeyFile")
             cb["iskPublicKey"] = K.p(f"{v['isk']}_pub.pem")
             cb["iskCertificateConstraint"] = v["cons"]
             if v["ud"]:
                 open(f("iskdata.bin"), "wb").write(gen_bytes(v["ud"], case["seed"] + 3))
                 cb["iskCertData"] = f("iskdata.bin")
-            cfg["signPrivateKey"] = K.p(f"{v['isk']}.pem")
+            signers["img"] = set_signer(cfg, case.get("be"), "img", K.p(f"{v['isk']}.pem"), "signPrivateKey")
         else:
-            cfg["signPrivateKey"] = root_key
+            signers["img"] = set_signer(cfg, case.get("be"), "img", root_key, "signPrivateKey")
         yaml.safe_dump(cb, open(f("cert_block.yaml"), "w"))
         cfg["certBlock"] = f("cert_block.yaml")
         if case.get("digest") == "add":
@@ -475,7 +546,10 @@ def build_once(case, comp, d, patch):
     payload = appa + (reloc_bytes(rel, len(appa)) if op["reloc"] and rel else b"")
     if comp["type"] == 3:
         sec["plain"] = R.mask_rom_words(payload) + tz_data
-    return data, rom, sec, {"cfg": cfg, "pay": len(payload)}
+    info = {"cfg": cfg, "pay": len(payload)}
+    if case.get("be"):
+        info["be_reached"] = be_reached(case["be"], comp["cb"], signers, mbi_sigprov.take_calls())
+    return data, rom, sec, info
 
 
 def key_class(case):
@@ -504,6 +578,8 @@ def feature_class(case):
     sp = case.get("special")
     if sp:
         f.append(f"{sp['what']}@{sp['cut']}={sp['cls']}")
+    if case.get("be"):
+        f.append(f"be:{case['be']['img']}/{case['be']['isk']}")  # who signed the image / the ISK certificate
     return "+".join(f) or "base"
 
 
@@ -535,6 +611,8 @@ def run_case(job):
     ev, reg = R.walk(data, rom, sec)
     res = {"id": case["id"], "outcome": "exported", "trace": {"id": case["id"], "rom": rom, "pay": _info["pay"], "ev": ev}, "n": len(data),
            "tamper": [], "reg": reg, "sha": sha(data.hex()), "patch": _info.get("patch")}
+    if case.get("be"):
+        res["be_reached"] = _info.get("be_reached")
     sp = case.get("special")
     if sp:  # did the exported image really reach the class TLC planned? (measured by the executor on the real bytes)
         if sp["what"] == "ctr":
@@ -565,8 +643,19 @@ def mc_plan(v, g):
     """What the GEN run planned: tamper verdicts per (kind, field class, corner), payload lengths below byte 64 per kind,
     special value classes of chained computations per kind."""
     v.add_mc(g)
-    plan, small, special = {}, {}, {}
+    plan, small, special, backends, asis = {}, {}, {}, {}, 0
     for j in g.json_prints():
+        if j["be"]["emb"] != "nxp":  # a DER blob stored as delivered: the lemma AsDeliveredRejected, not a plan
+            if j["verdict"] != "Rejected":
+                raise Machinery(f"GEN: the ROM model does not reject a signature blob stored as delivered: {j}")
+            asis += 1
+            continue
+        if j["beShape"] and j["cls"] == "none" and j["sp"]["what"] == "none":
+            if j["verdict"] != "Accepted":
+                raise Machinery(f"GEN: the ROM model does not accept the image signed by {j['be']} (kind {j['kind']})")
+            b = {"img": j["be"]["img"], "isk": j["be"]["isk"], "curve": j["curve"], "iskLen": j["isk"]}
+            if b not in backends.setdefault(j["kind"], []):
+                backends[j["kind"]].append(b)
         k = (j["kind"], j["cls"], bool(j["corner"]))
         if plan.setdefault(k, j["verdict"]) != j["verdict"]:
             raise Machinery(f"GEN: field class {k} has both verdicts")
@@ -585,7 +674,12 @@ def mc_plan(v, g):
         raise Machinery(f"GEN emitted no payload length below byte 64 for some kind: {small}")
     if sum(len(x) for x in special.values()) < 40 or not all(special.get(k) for k in ("crc_xip", "crc_ram", "v21_crc", "v1_enc")):
         raise Machinery(f"GEN emitted too few special value classes: {special}")
-    return {"plan": plan, "small": small, "special": special}
+    for k in backends:
+        backends[k].sort(key=lambda b: (b["curve"], b["iskLen"], b["img"], b["isk"]))
+    want = {"v1_xip": 5, "v1_ram": 5, "v1_enc": 5, "v21_dig": 2 * 6 + 3 * 36, "v21_crc": 2 * 6 + 3 * 36}
+    if {k: len(x) for k, x in backends.items()} != want or not asis:
+        raise Machinery(f"GEN emitted an unexpected plan of signing back ends: { {k: len(x) for k, x in backends.items()} }, stored-as-delivered lines: {asis}")
+    return {"plan": plan, "small": small, "special": special, "backends": backends, "asis": asis}
 
 
 def canary(good_trace):
@@ -740,10 +834,10 @@ def run(tier):
     cases_by_id = {c["id"]: c for c in cases}
 
     # tamper selection: per (composition, key class) one image with class-wise flips; thorough: + every bit of the smallest image per kind
-    # (images with a special value are ordinary images as far as the regions go: not tampered with)
+    # (images with a special value / of the signing back-end lane are ordinary images as far as the regions go: not tampered with)
     seen, tam = set(), {}
     for c in cases:
-        if c.get("special"):
+        if c.get("special") or c.get("be"):
             continue
         k = (c["comp"], key_class(c).split("-")[0], feature_class(c)) if tier == "quick" else (c["comp"], key_class(c), feature_class(c))
         if k not in seen:
@@ -778,6 +872,29 @@ def run(tier):
     v.extra["special_values_not_reached"] = missed[:20]
     say(f"[C02] special values of chained computations reached on the exported bytes: "
         + ", ".join(f"{k} {st['reached']}/{st['planned']}" for k, st in sorted(sp_stats.items())))
+
+    # the planned signing back ends: every one built in every composition; the plug-in back ends confirm that they signed
+    be_stats, be_missed = {}, []
+    for res in results:
+        c = cases_by_id[res["id"]]
+        if c.get("be"):
+            st = be_stats.setdefault(f"{c['kind']}/{c['be']['img']}/{c['be']['isk']}", {"planned": 0, "exported": 0, "plugin_confirmed": 0})
+            st["planned"] += 1
+            if res["outcome"] == "exported":
+                st["exported"] += 1
+                st["plugin_confirmed"] += res.get("be_reached") is True
+                if res.get("be_reached") is False:
+                    be_missed.append(f"{c['id']} {c['comp']} {c['be']}")
+    n_plan = sum(len(gen["backends"][cp["kind"]]) for cp in comps if cp["kind"] != "dsc" and cp["cb"])
+    if len({(c["comp"], c["be"]["img"], c["be"]["isk"], str(c.get("v21", {}).get("curve")), str(c.get("v21", {}).get("isk")))
+            for c in cases if c.get("be")}) != n_plan:
+        raise Machinery(f"the signing back-end lane does not cover the {n_plan} (composition, curve, ISK, back end pair) combinations TLC planned")
+    v.extra["signing_back_ends"] = be_stats
+    v.extra["signing_back_ends_not_confirmed"] = be_missed[:20]
+    v.extra["stored_as_delivered_rejected_by_model"] = gen["asis"]
+    say(f"[C02] signing back ends: {sum(st['exported'] for st in be_stats.values())}/{sum(st['planned'] for st in be_stats.values())} images of "
+        f"{len(be_stats)} (kind, image signer, ISK certificate signer) classes exported, "
+        f"{sum(st['plugin_confirmed'] for st in be_stats.values())} confirmed by the plug-in provider's own call record")
 
     if tier == "thorough":  # every bit of the smallest accepted image per kind (<= 4 KiB)
         best = {}
@@ -828,7 +945,11 @@ def run(tier):
         "HW-key flag, versions, sub-type, load address, counter IV) + the lanes TLC plans in the GEN run, built for every composition they apply "
         "to: payload lengths 0x38 / 0x3C / 64 (HMAC compositions: x relocation table x key store x TrustZone mode) and the special value classes "
         "of chained computations (running / final image CRC and manifest CRC = 0 / FFFFFFFF at offsets 0x20, 0x24, 0x28, 0x30, 0x34, 0x38, 0x40 "
-        "(thorough: + 0x200, 0x400, 0x1000) and at the end, reached by a payload word solved over GF(2); AES-CTR counter start 0 / all ones / low 32 / low 64 bits all ones); each "
+        "(thorough: + 0x200, 0x400, 0x1000) and at the end, reached by a payload word solved over GF(2); AES-CTR counter start 0 / all ones / low 32 / low 64 bits all ones) "
+        "and the SIGNING BACK ENDS (who produces the image signature x who produces the ISK certificate signature: key file, signProvider type=file, "
+        "the same with der_format=true, a plug-in SignatureProvider subclass of the minimal interface delivering r || s / ASN.1 DER / DER of a signature "
+        "with a leading zero byte in r or s; every pair x P-256 / P-384 root x no ISK / P-256 / P-384 ISK for certificate block v2.1, every back end x "
+        "RSA 2048/3072/4096 for certificate block v1, in every composition with a certificate block); each "
         "case is built by load_from_config/export, walked by the executor and "
         "decided by TLC; non-trivial = the trace reaches Accept (unsettled corner: CertSplit); distinct by (composition, key class, feature class, "
         "length mod 4, TrustZone mode)"
@@ -849,12 +970,17 @@ def run(tier):
         "the key store is a device-bound blob the ROM does not authenticate with the image: flips inside it are expected to be accepted",
         "ISK curves stronger than the root curve and manifest digests with another hash than the signature's are not generated (the tool itself says such images do not boot)",
         "v1 chains with mixed key sizes: one representative (2048-bit root, 4096-bit signing certificate)",
+        "signing back ends: a provider is used through the documented configuration entry (signPrivateKey / mainRootCertPrivateKeyFile / signProvider) and "
+        "implements the documented interface (sign, signature_length); DER blobs are the ones `cryptography` (OpenSSL) emits, i.e. minimal-length INTEGERs; "
+        "providers that return anything else (wrong width, other containers) are not generated; a remote proxy provider (type=proxy) is not run",
     ]
     rc = v.finish()
     if mismatch and rc == 0:  # the measurement of the verifier itself failed: not a verdict about SPSDK
         raise Machinery(f"{len(mismatch)} tamper runs did not end as the model predicted, e.g. {mismatch[0]}")
     if missed and rc == 0:  # the generator did not reach what TLC planned: the run proves less than it says
         raise Machinery(f"{len(missed)} planned special values were not reached on the exported bytes, e.g. {missed[0]}")
+    if be_missed and rc == 0:
+        raise Machinery(f"{len(be_missed)} images were not signed by the plug-in back end their case names, e.g. {be_missed[0]}")
     return rc
 
 
